@@ -94,20 +94,20 @@ const (
 	// uninterpreted application
 	OApp
 	// floating point (Float64 only)
-	OFpOfUBV   // to_fp_unsigned RNE bv
-	OFpOfSBV   // to_fp RNE bv (signed)
-	OFpMul     // fp.mul RNE
-	OFpAdd     // fp.add RNE
-	OFpSub     // fp.sub RNE
-	OFpDiv     // fp.div RNE
-	OFpLt      // fp.lt
-	OFpLe      // fp.leq
-	OFpEq      // fp.eq
-	OFpToUBV   // fp.to_ubv w RTZ
-	OFpToSBV   // fp.to_sbv w RTZ
-	OFpRTZ     // fp.roundToIntegral RTZ
-	OFpOfInt   // to_fp RNE (to_real int)
-	OFpConst   // constant, bits in c
+	OFpOfUBV // to_fp_unsigned RNE bv
+	OFpOfSBV // to_fp RNE bv (signed)
+	OFpMul   // fp.mul RNE
+	OFpAdd   // fp.add RNE
+	OFpSub   // fp.sub RNE
+	OFpDiv   // fp.div RNE
+	OFpLt    // fp.lt
+	OFpLe    // fp.leq
+	OFpEq    // fp.eq
+	OFpToUBV // fp.to_ubv w RTZ
+	OFpToSBV // fp.to_sbv w RTZ
+	OFpRTZ   // fp.roundToIntegral RTZ
+	OFpOfInt // to_fp RNE (to_real int)
+	OFpConst // constant, bits in c
 	OFpNeg
 	OBv2Nat
 	OInt2Bv
@@ -126,18 +126,18 @@ var opNames = map[Op]string{
 }
 
 type Term struct {
-	id   int
-	op   Op
-	sort Sort
-	args []*Term
-	c    *big.Int // constants: BV unsigned value, Int value, Bool 0/1, FP bits
-	name string   // variable / UF name
-	i1   int      // extract hi / extension amount / to_bv width
-	i2   int      // extract lo
+	id      int
+	op      Op
+	sort    Sort
+	args    []*Term
+	c       *big.Int     // constants: BV unsigned value, Int value, Bool 0/1, FP bits
+	name    string       // variable / UF name
+	i1      int          // extract hi / extension amount / to_bv width
+	i2      int          // extract lo
 	emitted map[int]bool // solver ids where define-fun was emitted
 }
 
-func (t *Term) Sort() Sort   { return t.sort }
+func (t *Term) Sort() Sort    { return t.sort }
 func (t *Term) IsConst() bool { return t.op == OConst }
 func (t *Term) IsTrue() bool  { return t.op == OConst && t.sort.K == SBool && t.c.Sign() != 0 }
 func (t *Term) IsFalse() bool { return t.op == OConst && t.sort.K == SBool && t.c.Sign() == 0 }
